@@ -21,7 +21,12 @@ package tests
 //   L <r> <key>   S <r> (Sync)   P <r> (PrepareSnapshot -> ctx slot r)   V <r> (SaveSnapshot ctx slot r -> snapshot slot r)
 //   R <r> <r2> (RecoverFromSnapshot of r from snapshot slot r2)   O <r> (Close + new object + Open)
 //   H <r> (GetHash)   D <r> (GetHash + Lookup of every K key)
+//   C <r> <nthr> <nkeys> <key>... <op of replica r>   the op runs while <nthr> goroutines call Lookup(key) on replica r in a
+//        loop (the statemachine contract allows Lookup concurrently with Update / SaveSnapshot / RecoverFromSnapshot / Close).
+//        Answer: C <lookups done> <answers seen for key 1, comma separated: hex value, "-", "err" or "panic:<msg>"> ... ; <answer of the op>
 //   END
+// Env VERIF_STREAM=1: "BEGIN <id>" is written (and flushed) when a case starts and the block of a case when it ends, so that the
+// case that took the process down (a crash no recover() can catch) can be named by the caller.
 
 import (
 	"bufio"
@@ -33,8 +38,11 @@ import (
 	"runtime/debug"
 	"strconv"
 	"strings"
+	"sort"
 	"sync"
+	"sync/atomic"
 	"testing"
+	"time"
 
 	"github.com/lni/dragonboat/v4/config"
 	sm "github.com/lni/dragonboat/v4/statemachine"
@@ -135,6 +143,134 @@ func (r *vkReplica) lookup(key []byte) (string, error) {
 	return vkEnc(v.([]byte)), nil
 }
 
+// lookup function bound to the CURRENT machine object of the replica (a Close+Open installs a new object)
+func (r *vkReplica) lookupFn() func(key []byte) (string, error) {
+	var f func(interface{}) (interface{}, error)
+	switch r.kind {
+	case "kv":
+		f = r.kv.Lookup
+	case "ckv":
+		f = r.ckv.Lookup
+	default:
+		f = r.dkv.Lookup
+	}
+	return func(key []byte) (string, error) {
+		v, err := f(key)
+		if err != nil {
+			return "", err
+		}
+		if v == nil {
+			return "-", nil
+		}
+		return vkEnc(v.([]byte)), nil
+	}
+}
+
+func vkMsg(e interface{}) string {
+	msg := strings.Map(func(c rune) rune {
+		if c == ' ' || c == '\n' || c == '\t' || c == ',' || c == ';' {
+			return '_'
+		}
+		return c
+	}, fmt.Sprint(e))
+	if len(msg) > 120 {
+		msg = msg[:120]
+	}
+	return msg
+}
+
+// the op f[4+nk:] of replica f[1] runs while f[2] goroutines look the f[3] keys up on that replica
+func vkConc(reps []*vkReplica, keys [][]byte, f []string) string {
+	ri, _ := strconv.Atoi(f[1])
+	if ri < 0 || ri >= len(reps) {
+		return "C badreplica"
+	}
+	r := reps[ri]
+	if r.dead {
+		return "C dead"
+	}
+	nthr, _ := strconv.Atoi(f[2])
+	nk, _ := strconv.Atoi(f[3])
+	if nthr < 1 || nk < 1 || len(f) < 4+nk+2 || f[4+nk+1] != f[1] || r.kind == "kv" {
+		return "C unknown"
+	}
+	ck := make([][]byte, nk)
+	for i := range ck {
+		ck[i] = vkDec(f[4+i])
+	}
+	inner := f[4+nk:]
+	look := r.lookupFn()
+	var started, stop int32
+	var total int64
+	seen := make([][]map[string]struct{}, nthr)
+	var wg sync.WaitGroup
+	for t := 0; t < nthr; t++ {
+		seen[t] = make([]map[string]struct{}, nk)
+		for i := range seen[t] {
+			seen[t][i] = make(map[string]struct{})
+		}
+		wg.Add(1)
+		go func(t int) {
+			defer wg.Done()
+			cur, first, n := 0, true, int64(0)
+			defer func() {
+				if e := recover(); e != nil {
+					seen[t][cur]["panic:"+vkMsg(e)] = struct{}{}
+				}
+				if first {
+					atomic.AddInt32(&started, 1)
+				}
+				atomic.AddInt64(&total, n)
+			}()
+			for last := false; ; {
+				for j := 0; j < nk; j++ {
+					cur = (j + t) % nk
+					v, err := look(ck[cur])
+					if err != nil {
+						v = "err"
+					}
+					if len(seen[t][cur]) < 32 {
+						seen[t][cur][v] = struct{}{}
+					}
+					n++
+				}
+				if first {
+					first = false
+					atomic.AddInt32(&started, 1)
+				}
+				if last {
+					return
+				}
+				last = atomic.LoadInt32(&stop) != 0 // one more full round after the op has returned
+			}
+		}(t)
+	}
+	for dl := time.Now().Add(5 * time.Second); atomic.LoadInt32(&started) < int32(nthr) && time.Now().Before(dl); {
+		runtime.Gosched()
+	}
+	out := vkOp(reps, keys, inner)
+	atomic.StoreInt32(&stop, 1)
+	wg.Wait()
+	var sb strings.Builder
+	fmt.Fprintf(&sb, "C %d", total)
+	for i := 0; i < nk; i++ {
+		all := map[string]struct{}{}
+		for t := 0; t < nthr; t++ {
+			for k := range seen[t][i] {
+				all[k] = struct{}{}
+			}
+		}
+		toks := make([]string, 0, len(all))
+		for k := range all {
+			toks = append(toks, k)
+		}
+		sort.Strings(toks)
+		sb.WriteString(" ")
+		sb.WriteString(strings.Join(toks, ","))
+	}
+	return sb.String() + " ; " + out
+}
+
 func (r *vkReplica) closeAll() {
 	defer func() { _ = recover() }()
 	if r.kind == "disk" && r.dkv != nil {
@@ -157,16 +293,7 @@ func vkOp(reps []*vkReplica, keys [][]byte, f []string) (out string) {
 	defer func() {
 		if e := recover(); e != nil {
 			r.dead = true
-			msg := strings.Map(func(c rune) rune {
-				if c == ' ' || c == '\n' || c == '\t' {
-					return '_'
-				}
-				return c
-			}, fmt.Sprint(e))
-			if len(msg) > 120 {
-				msg = msg[:120]
-			}
-			out = f[0] + " panic " + msg
+			out = f[0] + " panic " + vkMsg(e)
 		}
 	}()
 	switch f[0] {
@@ -345,7 +472,11 @@ func vkRunCase(lines []string) []string {
 			}
 			continue
 		}
-		out = append(out, vkOp(reps, keys, f))
+		if f[0] == "C" {
+			out = append(out, vkConc(reps, keys, f))
+		} else {
+			out = append(out, vkOp(reps, keys, f))
+		}
 	}
 	for _, r := range reps {
 		r.closeAll()
@@ -399,6 +530,8 @@ func TestVerifKVSM(t *testing.T) {
 		}
 	}
 	results := make([][]string, len(cases))
+	stream := os.Getenv("VERIF_STREAM") != ""
+	var wmu sync.Mutex
 	var wg sync.WaitGroup
 	ch := make(chan int)
 	for i := 0; i < workers; i++ {
@@ -406,7 +539,23 @@ func TestVerifKVSM(t *testing.T) {
 		go func() {
 			defer wg.Done()
 			for ci := range ch {
-				results[ci] = vkRunCase(cases[ci])
+				if stream {
+					wmu.Lock()
+					fmt.Fprintln(w, "BEGIN "+strings.Fields(cases[ci][0])[1])
+					w.Flush()
+					wmu.Unlock()
+				}
+				res := vkRunCase(cases[ci])
+				if stream {
+					wmu.Lock()
+					for _, l := range res {
+						fmt.Fprintln(w, l)
+					}
+					w.Flush()
+					wmu.Unlock()
+				} else {
+					results[ci] = res
+				}
 			}
 		}()
 	}
